@@ -9,7 +9,7 @@ SPEC = {
         "C13_overlaps_not_symmetric", "C13_merge_computes_components", "C13_sliced_eq_unsliced",
         "C13_arrival_order_irrelevant", "C13_series_independent", "C13_sliced_eq_unsliced_all_series", "C13_sliced_eq_unsliced_decoded",
         "C13_nonvacuous", "C13_nonvacuous_multi"]},
-    "harness_args": lambda tier: ["C13", "--n", 300 if tier == "quick" else 4000],
+    "harness_args": lambda tier: ["C13", "--n", 250 if tier == "quick" else 4000],
     "search_args": lambda tier: ["C13", "--n", 600],
     "level": "proof",
     "trusted_base": [
@@ -19,7 +19,7 @@ SPEC = {
         "ExpandRangesEnd, Overlaps 9 cases, MergeRanges with fuel, stable sort per series, covers/FindGaps) and GoTime.v "
         "(Time.Round relative to year 1, Duration.Round) over Z nanoseconds; int64 saturation of time.Time/Duration arithmetic is "
         "outside the model",
-        "correspondence: the real sliceRange (overlay export), AppendSampleToRanges, ExpandRangesEnd, Overlaps, MergeRanges, FindGaps "
+        "correspondence: the real sliceRange and streamSampleStream (overlay exports), AppendSampleToRanges, ExpandRangesEnd, Overlaps, MergeRanges, FindGaps "
         "and the function-level pipeline are run on generated inputs (incl. adversarial non-pipeline ranges, hole families, "
         "ns offsets around every threshold) and compared with the model by coqc; the real Prometheus.RangeQuery runs end to end "
         "against an in-process fake server (presence model, random per-slice delays) and its requests/results are compared "
@@ -28,9 +28,9 @@ SPEC = {
         "series present during whole slices only, minimal two-slice configurations), the fake server (query_range over a presence "
         "model with Prometheus' millisecond parsing, series order permuted per response), the reference runs in Go, the label / "
         "fingerprint / step checks of the oracle, the watchdog that turns a non-terminating slicing loop into a reported input",
-        "Model/RangeStream.v (reused decoder variable, json.Unmarshal-into-map semantics, reset) is hand-written and tied only end to "
-        "end (the decoded labels of every result range are compared with the served label sets); the `current` streaming library and "
-        "encoding/json are trusted to behave as json.Unmarshal into the reused variable",
+        "Model/RangeStream.v (reused decoder variable, json.Unmarshal-into-map semantics, reset) is hand-written; it is tied by a "
+        "function-level correspondence of streamSampleStream (overlay export) on generated response bodies and end to end (the decoded "
+        "labels of every result range are compared with the served label sets); labels.Hash enters the case files as a finite table",
         "server model: a Prometheus-compatible server answers query_range(start,end,step) with the samples at start+k*step <= end",
     ],
     "assumptions": [
